@@ -24,6 +24,10 @@ def catalogue(quick=True):
             out.append(('dwt2d-inv', dict(mode=mode, L=L, H=H, W=W, J=J)))
         out.append(('dwt2d-fwd', dict(mode=mode, L=4, H=9, W=12, J=2, filters='tuple4')))
         out.append(('dwt2d-inv', dict(mode=mode, L=4, H=9, W=12, J=2, filters='tuple4')))
+        if mode in ('zero', 'periodization'):
+            # same column filters, other row filters: exposes caches keyed on part of the filter set
+            out.append(('dwt2d-fwd', dict(mode=mode, L=4, H=9, W=12, J=2, filters='tuple4b')))
+            out.append(('dwt2d-inv', dict(mode=mode, L=4, H=9, W=12, J=2, filters='tuple4b')))
         out.append(('dwt2d-inv-none', dict(mode=mode, L=4, H=9, W=12, J=2)))
         out.append(('dwt1d-inv-none', dict(mode=mode, L=4, N=11, J=2)))
         for fn in ('afb2d', 'sfb2d'):
@@ -90,6 +94,9 @@ def build(S, kind, p, nb=2, c=3, requires_grad=False, contig=True):
     def wave2d(p):
         if p.get('filters') == 'tuple4':
             return tuple(user_filter(str(i), p['L'] + (2 if i >= 2 else 0)) for i in range(4)), p['L'], p['L'] + 2
+        if p.get('filters') == 'tuple4b':
+            return tuple(user_filter(str(i) if i < 2 else 'b%d' % i, p['L'] + (4 if i >= 2 else 0)) for i in range(4)), \
+                p['L'], p['L'] + 4
         return wname(p['L']), p['L'], p['L']
     if kind == 'dwt2d-fwd':
         m = S.construct(T2, 'DWTForward', J=p['J'], wave=wave2d(p)[0], mode=p['mode'])
